@@ -16,6 +16,18 @@ Open Scope list_scope.
 (* contract of the oracle field smallest_probability: a product of minima of |coeff|/kappa *)
 Definition probs_nonneg (O : oracles) : Prop := forall a, (0 <= smallest_probability O a)%Q.
 
+(* `exact_class O c` = c is a find_cuts call (seeded or not), a from_instruction call, or a generation that does not
+   reach the sampler.  Which generations those are: *)
+Theorem c09_inf_is_exact : forall (O : oracles), probs_nonneg O -> forall a, exact_class O (GenExact O a) = true.
+Proof. exact inf_exact_class. Qed.
+
+Theorem c09_finite_exact_threshold : forall (O : oracles) a n, (1 / n <= smallest_probability O a)%Q ->
+  exact_class O (Gen O a (NFin n)) = true.
+Proof. intros O a n H; simpl. now rewrite finite_exact_threshold. Qed.
+
+Theorem c09_invalid_num_samples_exact : forall (O : oracles) a n, (n < 1)%Q -> exact_class O (Gen O a (NFin n)) = true.
+Proof. intros O a n H; simpl. now rewrite invalid_never_samples. Qed.
+
 (* the greedy pass assigns to three slots of the shared table the values it has just read *)
 Theorem c09_greedy_writes_identity : forall t, greedy_writes t = t.
 Proof. exact greedy_writes_id. Qed.
@@ -28,37 +40,37 @@ Proof. exact step_registries. Qed.
 Theorem c09_registries_invariant_history : forall (O : oracles) h g, registries (run O g h) = registries g.
 Proof. exact run_registries. Qed.
 
-(* find_cuts (seeded or not), generation with num_samples = inf and from_instruction leave both global generators alone *)
-Theorem c09_rng_untouched : forall (O : oracles), probs_nonneg O -> forall g c, exact_class O c = true ->
+(* find_cuts (seeded or not), from_instruction and every generation that stays off the sampler leave both global
+   generators alone *)
+Theorem c09_rng_untouched : forall (O : oracles) g c, exact_class O c = true ->
   np_global (fst (step O g c)) = np_global g /\ py_global (fst (step O g c)) = py_global g.
-Proof. intros O H g c E; split; [now apply step_np|apply step_py]. Qed.
+Proof. intros O g c E; split; [now apply step_np|apply step_py]. Qed.
 
 (* stronger: such a call leaves the whole process state as it found it, and so does any history of such calls *)
-Theorem c09_state_untouched : forall (O : oracles), probs_nonneg O -> forall g c, exact_class O c = true ->
-  fst (step O g c) = g.
+Theorem c09_state_untouched : forall (O : oracles) g c, exact_class O c = true -> fst (step O g c) = g.
 Proof. exact step_state_id. Qed.
 
-Theorem c09_state_untouched_history : forall (O : oracles), probs_nonneg O -> forall h g,
+Theorem c09_state_untouched_history : forall (O : oracles) h g,
   forallb (exact_event O) h = true -> run O g h = g.
 Proof. exact run_exact_state. Qed.
 
-(* Python's global generator is never written; numpy's only by a finite-num_samples generation that reaches the sampler *)
+(* Python's global generator is never written; numpy's only by a generation that reaches the sampler *)
 Theorem c09_py_never_written : forall (O : oracles) g c, py_global (fst (step O g c)) = py_global g.
 Proof. exact step_py. Qed.
 
-Theorem c09_np_only_writer : forall (O : oracles), probs_nonneg O -> forall g c,
+Theorem c09_np_only_writer : forall (O : oracles) g c,
   np_global (fst (step O g c)) <> np_global g ->
-  exists a n, c = Gen O a (NFin n) /\ reaches_sampler O a (NFin n) = true.
+  exists a ns, c = Gen O a ns /\ reaches_sampler O a ns = true.
 Proof. exact np_writer. Qed.
 
 (* the result of a call does not depend on what happened before in the process: h1, h2 are ARBITRARY histories
    (any calls, also sampled generations, any interference with the generators) *)
-Theorem c09_history_independent : forall (O : oracles), probs_nonneg O -> forall g0 h1 h2 c, exact_class O c = true ->
+Theorem c09_history_independent : forall (O : oracles) g0 h1 h2 c, exact_class O c = true ->
   snd (step O (run O g0 h1) c) = snd (step O (run O g0 h2) c).
 Proof. exact history_independent. Qed.
 
 (* … nor on the state of the global generators (or anything else but the registries) *)
-Theorem c09_rng_independent : forall (O : oracles), probs_nonneg O -> forall g g' c, exact_class O c = true ->
+Theorem c09_rng_independent : forall (O : oracles) g g' c, exact_class O c = true ->
   registries g = registries g' -> snd (step O g c) = snd (step O g' c).
 Proof. exact result_reads_registries. Qed.
 
@@ -71,18 +83,23 @@ Theorem c09_seeded : forall (O : oracles) g0 h a s,
             (funcs_lo g0) (basis_registry g0) a (seeded_tape O s)).
 Proof. exact seeded_closed_form. Qed.
 
-(* exact-weight generation is a pure function of its arguments (and the decomposition registry) *)
+(* exact-weight generation is a pure function of its arguments (and the decomposition registry): num_samples = inf … *)
 Theorem c09_gen_exact_pure : forall (O : oracles), probs_nonneg O -> forall g0 h a,
   snd (step O (run O g0 h) (GenExact O a)) = RGen O (gen_exact_pure O (basis_registry g0) a NInf).
 Proof. exact gen_exact_closed_form. Qed.
+
+(* … and every finite num_samples for which the all-exact branch is taken (or which is refused) *)
+Theorem c09_gen_finite_exact_pure : forall (O : oracles) g0 h a ns, reaches_sampler O a ns = false ->
+  snd (step O (run O g0 h) (Gen O a ns)) = RGen O (gen_exact_pure O (basis_registry g0) a ns).
+Proof. exact gen_nosampler_closed_form. Qed.
 
 Theorem c09_from_instruction_pure : forall (O : oracles) g0 h a,
   snd (step O (run O g0 h) (FromInstruction O a)) = RBasis O (from_instruction_pure O (basis_registry g0) a).
 Proof. exact from_instruction_closed_form. Qed.
 
 (* a fresh interpreter (same import-time registries, arbitrary generator states, empty history) gives the same result *)
-Theorem c09_fresh_interpreter : forall (O : oracles), probs_nonneg O ->
-  forall actions basis np py np' py' h c, exact_class O c = true ->
+Theorem c09_fresh_interpreter : forall (O : oracles)
+  actions basis np py np' py' h c, exact_class O c = true ->
   snd (step O (run O (fresh_process actions basis np py) h) c) = snd (step O (fresh_process actions basis np' py') c).
 Proof. exact fresh_interpreter. Qed.
 
@@ -145,8 +162,10 @@ Proof. vm_compute. repeat split. Qed.
 
 (* finite num_samples at or above 1/smallest probability (1/10 <= 1/6): all-exact branch, nothing touched *)
 Example demo_finite_but_exact :
-  step O_demo g_demo (Gen O_demo 2 (NFin 10)) = (g_demo, RGen O_demo 5).
-Proof. vm_compute. reflexivity. Qed.
+  step O_demo g_demo (Gen O_demo 2 (NFin 10)) = (g_demo, RGen O_demo 5) /\
+  exact_class O_demo (Gen O_demo 2 (NFin 10)) = true /\ exact_class O_demo (Gen O_demo 2 (NFin 3)) = false /\
+  exact_class O_demo (Gen O_demo 2 (NFin (1 # 2))) = true.
+Proof. vm_compute. repeat split. Qed.
 
 Example demo_copy :
   res_map an_view (an_copy (action_registry g_demo) (Some (cut_search_groups true false))) =
@@ -167,6 +186,10 @@ Print Assumptions c09_history_independent.
 Print Assumptions c09_rng_independent.
 Print Assumptions c09_seeded.
 Print Assumptions c09_gen_exact_pure.
+Print Assumptions c09_gen_finite_exact_pure.
+Print Assumptions c09_inf_is_exact.
+Print Assumptions c09_finite_exact_threshold.
+Print Assumptions c09_invalid_num_samples_exact.
 Print Assumptions c09_from_instruction_pure.
 Print Assumptions c09_fresh_interpreter.
 Print Assumptions c09_copy_ok.
@@ -238,16 +261,42 @@ Proof. reflexivity. Qed.
    mutator method on a global, or assigns an attribute/item THROUGH A PARAMETER (possible alias of a global).
    - the three search_space_funcs.* assignments are greedy_writes (Model/Process.v);
    - _register_qpdbasis_from_instruction.g runs only inside the decorators, i.e. at import time;
+   - SELF-CHAIN-WRITE/-CALL (cut_finding only): writes two levels below self.  self.func_args.* is the per-CutOptimization
+     CutOptimizationFuncArgs; the dict/list item writes are into containers created in the same object's __init__
+     (NameToIDMap, SimpleGateList, DisjointSubcircuitsState, OptimizationSettings) or ActionNames.define_action (import time /
+     fresh copy); none reaches self.search_funcs.* or a registry;
+   - no DEF-WRITE/DEF-CALL: no function attribute, class attribute or imported object is written;
    - all other PARAM-WRITEs / PARAM-CALLs go through parameters whose classes have no module-level instance (fact c09_registry_classes):
      QuantumCircuit.data, local dicts/lists, DisjointSubcircuitsState, CutOptimizationFuncArgs (one per CutOptimization). *)
 Example global_writes_as_modelled : c09_global_writes = [
   ("cut_finding.cco_utils:greedy_best_first_search", "PARAM-WRITE-assign search_space_funcs.cost_func := cast(Callable, search_space_funcs.cost_func)");
   ("cut_finding.cco_utils:greedy_best_first_search", "PARAM-WRITE-assign search_space_funcs.goal_state_func := cast(Callable, search_space_funcs.goal_state_func)");
   ("cut_finding.cco_utils:greedy_best_first_search", "PARAM-WRITE-assign search_space_funcs.next_state_func := cast(Callable, search_space_funcs.next_state_func)");
+  ("cut_finding.circuit_interface:NameToIDMap.define_id", "SELF-CHAIN-WRITE-assign self.id_dict[item_id] := item_name");
+  ("cut_finding.circuit_interface:NameToIDMap.define_id", "SELF-CHAIN-WRITE-assign self.item_dict[item_name] := item_id");
+  ("cut_finding.circuit_interface:NameToIDMap.get_id", "SELF-CHAIN-WRITE-assign self.id_dict[self.next_id] := item_name");
+  ("cut_finding.circuit_interface:NameToIDMap.get_id", "SELF-CHAIN-WRITE-assign self.item_dict[item_name] := self.next_id");
+  ("cut_finding.circuit_interface:SimpleGateList.insert_gate_cut", "SELF-CHAIN-WRITE-assign self.cut_type[gate_pos] := cut_type");
+  ("cut_finding.circuit_interface:SimpleGateList.insert_wire_cut", "SELF-CHAIN-WRITE-assign self.output_wires[qubit] := dest_wire_id");
+  ("cut_finding.circuit_interface:SimpleGateList.insert_wire_cut", "SELF-CHAIN-WRITE-augassign self.new_gate_id_map[gate_id:] := 1");
   ("cut_finding.circuit_interface:SimpleGateList.make_wire_mapping", "PARAM-WRITE-assign name_mapping[name] := name");
+  ("cut_finding.cut_optimization:CutOptimization.__init__", "SELF-CHAIN-WRITE-assign self.func_args.entangling_gates := self.circuit.get_multiqubit_gates()");
+  ("cut_finding.cut_optimization:CutOptimization.__init__", "SELF-CHAIN-WRITE-assign self.func_args.max_gamma := self.settings.get_max_gamma");
+  ("cut_finding.cut_optimization:CutOptimization.__init__", "SELF-CHAIN-WRITE-assign self.func_args.qpu_width := self.constraints.get_qpu_width()");
+  ("cut_finding.cut_optimization:CutOptimization.__init__", "SELF-CHAIN-WRITE-assign self.func_args.search_actions := self.search_actions");
   ("cut_finding.cut_optimization:cut_optimization_goal_state_func", "PARAM-WRITE-assign func_args.entangling_gates := cast(list, func_args.entangling_gates)");
   ("cut_finding.cut_optimization:cut_optimization_next_state_func", "PARAM-WRITE-assign func_args.qpu_width := cast(int, func_args.qpu_width)");
+  ("cut_finding.disjoint_subcircuits_state:DisjointSubcircuitsState.find_wire_root", "SELF-CHAIN-WRITE-assign self.uptree[wire] := root");
+  ("cut_finding.disjoint_subcircuits_state:DisjointSubcircuitsState.merge_roots", "SELF-CHAIN-WRITE-assign self.uptree[other_root] := merged_root");
+  ("cut_finding.disjoint_subcircuits_state:DisjointSubcircuitsState.merge_roots", "SELF-CHAIN-WRITE-augassign self.width[merged_root] := self.width[other_root]");
+  ("cut_finding.disjoint_subcircuits_state:DisjointSubcircuitsState.new_wire", "SELF-CHAIN-WRITE-assign self.wiremap[qubit] := self.num_wires");
   ("cut_finding.disjoint_subcircuits_state:DisjointSubcircuitsState.set_next_level", "PARAM-WRITE-assign state.level := cast(int, state.level)");
+  ("cut_finding.optimization_settings:OptimizationSettings.set_engine_selection", "SELF-CHAIN-WRITE-assign self.engine_selections[stage_of_optimization] := engine_name");
+  ("cut_finding.search_space_generator:ActionNames.define_action", "SELF-CHAIN-CALL self.group_dict[group_name].append");
+  ("cut_finding.search_space_generator:ActionNames.define_action", "SELF-CHAIN-CALL self.group_dict[name].append");
+  ("cut_finding.search_space_generator:ActionNames.define_action", "SELF-CHAIN-WRITE-assign self.action_dict[action_object.get_name()] := action_object");
+  ("cut_finding.search_space_generator:ActionNames.define_action", "SELF-CHAIN-WRITE-assign self.group_dict[group_name] := []");
+  ("cut_finding.search_space_generator:ActionNames.define_action", "SELF-CHAIN-WRITE-assign self.group_dict[name] := []");
   ("cutting_decomposition:cut_gates", "PARAM-WRITE-assign circuit.data[gate_id]");
   ("cutting_decomposition:partition_circuit_qubits", "PARAM-WRITE-assign circuit.data[i]");
   ("cutting_experiments:_consolidate_resets", "PARAM-WRITE-del circuit.data[i]");
@@ -406,7 +455,7 @@ Proof. reflexivity. Qed.
    write or mutator call through a local that (transitively) aliases a global: everything that is not a write or mutator
    call through a parameter is the decorator body that fills the decomposition registry *)
 Theorem c09_facts_no_direct_global_write :
-  filter (fun p => negb (String.prefix "PARAM-" (snd p))) c09_global_writes =
+  filter (fun p => negb (String.prefix "PARAM-" (snd p)) && negb (String.prefix "SELF-CHAIN-" (snd p))) c09_global_writes =
   [ ("qpd.decompositions:_register_qpdbasis_from_instruction.g", "WRITE-assign _qpdbasis_from_instruction_funcs[name] := f") ].
 Proof. reflexivity. Qed.
 
